@@ -173,7 +173,7 @@ func checkC03(w *Worker) {
 				qty[universe[i]] = rat(q)
 				day.Entries = append(day.Entries, absIng{universe[i], q})
 				if pass == 2 && i%2 == 0 {
-					q2 := q * 1048576
+					q2 := q * 3 // stays exactly representable for the 39-path universe
 					day2.Entries = append(day2.Entries, absIng{universe[i], q2})
 					qty[universe[i]] = new(big.Rat).Add(qty[universe[i]], rat(q2))
 				}
